@@ -2,6 +2,7 @@ package sim
 
 import (
 	"fmt"
+	"strconv"
 
 	"google.golang.org/grpc/metadata"
 
@@ -185,6 +186,7 @@ func OracleC17(w *World, h *History) {
 					for k, v := range p.Creds.MD {
 						expReq.Append(k, v)
 					}
+					expReq.Append("cred-call", "call-"+strconv.Itoa(p.ID))
 				}
 				if !mdEqual(expReq, hi.ReqMD) {
 					w.AddViolation("C17", "request-md-mismatch", fmt.Sprintf("rpc %d: the handler's metadata.FromIncomingContext = %s, the caller attached %s (the tunnel was opened with %s)", id, mdString(hi.ReqMD), mdString(expReq), mdString(exp)), det, o.Ret)
